@@ -3,7 +3,8 @@
 //! Equality of (best move, score, nodes) of the same searches repeated inside one
 //! process (with searches of other positions in between), in four separate processes, and
 //! while busy-loop processes load the machine; equality of the node total printed by the
-//! real `bench` subcommand run twice (quick) / four times (thorough) concurrently.
+//! real `bench` subcommand run twice (quick) / four times (thorough) concurrently, one of
+//! the runs frozen for 6 s in the middle (SIGSTOP/SIGCONT = extreme load, deterministically).
 
 use super::frame::*;
 use super::oracle::{self as o, Pos};
@@ -128,6 +129,22 @@ pub fn run(ctx: &Ctx) -> Report {
             Err(e) => rep.infra_errors.push(format!("cannot start bench: {e}")),
         }
     }
+    // One bench run is frozen for 6 s (SIGSTOP/SIGCONT): for the frozen process wall-clock time
+    // passes while it does no work, exactly what extreme machine load does, but without
+    // depending on how busy this sandbox happens to be.
+    let frozen_pid = benches.first().map(|c| c.id() as i32);
+    let freezer = std::thread::spawn(move || {
+        if let Some(pid) = frozen_pid {
+            std::thread::sleep(Duration::from_millis(1500));
+            unsafe {
+                libc::kill(pid, libc::SIGSTOP);
+            }
+            std::thread::sleep(Duration::from_secs(6));
+            unsafe {
+                libc::kill(pid, libc::SIGCONT);
+            }
+        }
+    });
     let burn_secs = ctx.tier.pick(20u64, 60);
     let burners = std::thread::scope(|s| {
         let h = s.spawn(|| run_sharded_raw(ctx, 10, 10, &[("RCE_C16_ROLE", "burn".to_string()), ("RCE_C16_BURN", burn_secs.to_string())]));
@@ -220,7 +237,31 @@ pub fn run(ctx: &Ctx) -> Report {
             }
         }
         rep.class_n("uci-searches-compared-across-3-engine-processes", list.len() as u64);
+        // a search that is the first and only one of its process must equal the same search
+        // done as the n-th of a long-lived process (state leaking between searches)
+        if let (Some(t0), Some(b)) = (tables.first(), base.as_ref().and_then(|b| b.as_array())) {
+            for (i, (best, nodes)) in t0.iter().enumerate() {
+                let (fen, d) = &list[i];
+                if let Some(w) = b.iter().find(|x| x[0].as_str() == Some(fen.as_str()) && x[1].as_u64() == Some(*d as u64)) {
+                    let wmove = w[2].as_str().unwrap_or("");
+                    let wnodes = w[4].as_u64().unwrap_or(0).to_string();
+                    let umove = best.split_whitespace().nth(1).unwrap_or("");
+                    rep.eval(1);
+                    if !nodes.is_empty() && (wmove != umove || wnodes != *nodes) {
+                        rep.violation(Violation::new(
+                            "across-processes",
+                            "across-processes/fresh-vs-long-lived",
+                            format!("{fen} depth {d}: a fresh engine process answered {umove} after {nodes} nodes, a long-lived process (n-th search, cache emptied) {wmove} after {wnodes} nodes"),
+                            json!({"fen": fen, "depth": d}),
+                        ));
+                        break;
+                    }
+                }
+            }
+            rep.class("fresh-process-vs-long-lived-process-compared");
+        }
     }
+    let _ = freezer.join();
     // bench totals
     let mut totals = vec![];
     for c in benches {
@@ -279,5 +320,5 @@ pub fn replay(ctx: &Ctx, case: &Value) -> Report {
 }
 
 pub const LEVEL: &str = "exploration";
-pub const RULE: &str = "(position, depth) = the 62 bench FENs at depth 4-5 (quick) / 5-6 (thorough) and corpus positions at depth 3-4, each searched from an emptied cache 3 times per process in different orders with searches of other positions in between, in 4 separate processes running at the same time as 10 busy-loop processes and as the real 'bench' subcommand (x2 quick / x4 thorough); oracle = equality of (bestmove, root score, node count) across all repetitions and processes, and of the bench node total. Non-trivial = (position, depth) with >= 1000 nodes, plus the bench comparison; distinct by (position, depth).";
+pub const RULE: &str = "(position, depth) = the 62 bench FENs at depth 4-5 (quick) / 5-6 (thorough) and corpus positions at depth 3-4, each searched from an emptied cache 3 times per process in different orders with searches of other positions in between, in 4 separate processes running at the same time as 10 busy-loop processes and as the real 'bench' subcommand (x2 quick / x4 thorough, one run frozen for 6 s by SIGSTOP/SIGCONT); the same searches as the only search of a fresh engine process (x3) must equal the long-lived processes' results; oracle = equality of (bestmove, root score, node count) across all repetitions and processes, and of the bench node total. Non-trivial = (position, depth) with >= 1000 nodes, plus the bench comparison; distinct by (position, depth).";
 pub const ASSUMPTIONS: &[&str] = &["equality is the whole oracle; nothing is assumed about which move is best", "machine load is produced by the harness itself (10 busy loops + concurrent bench runs on 16 cores)"];
